@@ -149,7 +149,7 @@
  "tier": "wip",
  "harness": "h_dirhash",
  "replace": ["str2hashbuf", "halfMD4Transform"],
- "defines": ["HT_CAP=255", "HT_ALG=1"],
+ "defines": ["HT_CAP=255", "HT_ALG=1", "HT_UF=1"],
  "cbmc_flags": ["--object-bits", "12"],
  "unwind": 10,
  "unwind_reason": "a name of at most 255 bytes has at most 8 chunks of 32 bytes; specification loops: 8 words x 4 bytes, 3 rounds x 8 steps; unwinding assertions on",
@@ -168,7 +168,7 @@
  "tier": "wip",
  "harness": "h_dirhash",
  "replace": ["str2hashbuf", "TEA_transform"],
- "defines": ["HT_CAP=255", "HT_ALG=2"],
+ "defines": ["HT_CAP=255", "HT_ALG=2", "HT_UF=1"],
  "cbmc_flags": ["--object-bits", "12"],
  "unwind": 18,
  "unwind_reason": "a name of at most 255 bytes has at most 16 chunks of 16 bytes; specification loops: 4 words x 4 bytes, 16 TEA rounds; unwinding assertions on",
@@ -189,6 +189,7 @@
  "loop_contracts": true,
  "defines": ["HT_LOOPS=1", "HT_ALG=0"],
  "unwind": 6,
+ "unwindset": {"h_dirhash_loop.0": 257},
  "unwind_reason": "the per-byte loop of dx_hack_hash is closed by an in-place loop contract (named anchor in lib/ext2fs/dirhash.c, hooks-pending/htree.diff); only the 4-word seed loop is unwound; unwinding assertions on",
  "timeout": 600,
  "functions": ["lib/ext2fs/dirhash.c:ext2fs_dirhash", "lib/ext2fs/dirhash.c:dx_hack_hash"],
@@ -208,6 +209,7 @@
  "loop_contracts": true,
  "defines": ["HT_LOOPS=1", "HT_ALG=1"],
  "unwind": 34,
+ "unwindset": {"h_dirhash_loop.0": 257},
  "unwind_reason": "the chunk loop of the real code is closed by an in-place loop contract (named anchor in lib/ext2fs/dirhash.c, hooks-pending/htree.diff); what is unwound are constant-bound loops: 4 seed words, str2hashbuf <= 32 bytes / 8 words, TEA 16 rounds, specification 3 x 8 MD4 steps; unwinding assertions on",
  "timeout": 600,
  "functions": ["lib/ext2fs/dirhash.c:ext2fs_dirhash", "lib/ext2fs/dirhash.c:str2hashbuf", "lib/ext2fs/dirhash.c:halfMD4Transform"],
@@ -227,6 +229,7 @@
  "loop_contracts": true,
  "defines": ["HT_LOOPS=1", "HT_ALG=2"],
  "unwind": 34,
+ "unwindset": {"h_dirhash_loop.0": 257},
  "unwind_reason": "the chunk loop of the real code is closed by an in-place loop contract (named anchor in lib/ext2fs/dirhash.c, hooks-pending/htree.diff); what is unwound are constant-bound loops: 4 seed words, str2hashbuf <= 32 bytes / 8 words, TEA 16 rounds, specification 3 x 8 MD4 steps; unwinding assertions on",
  "timeout": 600,
  "functions": ["lib/ext2fs/dirhash.c:ext2fs_dirhash", "lib/ext2fs/dirhash.c:str2hashbuf", "lib/ext2fs/dirhash.c:TEA_transform"],
@@ -235,6 +238,22 @@
 }
 */
 #include "verif.h"
+#ifdef HT_UF
+/*
+ * Parametric units: the compression functions are UNINTERPRETED symbols.  The real TEA_transform / halfMD4Transform are
+ * replaced by contracts "buf' = T(buf, in)" over these symbols and the specification is composed from the same symbols, so
+ * the unit proves  "for every function T: if the helper computes T then ext2fs_dirhash computes the kernel's composition of
+ * T".  That the real helpers compute the kernel's TEA_transform / half_md4_transform is what ht_tea_transform and
+ * ht_halfmd4_transform prove (same contract text with T := hh_tea_word / hh_md4_word).
+ */
+unsigned int __CPROVER_uninterpreted_hh_tea(unsigned int, unsigned int, unsigned int, unsigned int, unsigned int, unsigned int, int);
+unsigned int __CPROVER_uninterpreted_hh_md4(unsigned int, unsigned int, unsigned int, unsigned int,
+					    unsigned int, unsigned int, unsigned int, unsigned int,
+					    unsigned int, unsigned int, unsigned int, unsigned int, int);
+#define HH_TEA_WORD(o0, o1, k, i) __CPROVER_uninterpreted_hh_tea(o0, o1, (k)[0], (k)[1], (k)[2], (k)[3], i)
+#define HH_MD4_WORD(o0, o1, o2, o3, in, i) \
+	__CPROVER_uninterpreted_hh_md4(o0, o1, o2, o3, (in)[0], (in)[1], (in)[2], (in)[3], (in)[4], (in)[5], (in)[6], (in)[7], i)
+#endif
 #include "htree_hash.h"
 
 #ifndef HT_CAP
@@ -280,9 +299,12 @@ unsigned long long verif_g0, verif_g1, verif_g2, verif_g3, verif_g4, verif_g5, v
 	__CPROVER_loop_invariant(len == (int)verif_g5 - (int)verif_g4 && p == name + verif_g4) \
 	__CPROVER_loop_invariant(buf[0] == (__u32)verif_g0 && buf[1] == (__u32)verif_g1 && buf[2] == (__u32)verif_g2 && buf[3] == (__u32)verif_g3) \
 	__CPROVER_decreases(len)
+#ifndef HT_PROBE
+#define HT_PROBE
+#endif
 #define HT_CHUNK_GHOST(CH) { \
 		__CPROVER_assert(p == name + verif_g4, "CHECK:cursor has its invariant value"); \
-		p = name + verif_g4; \
+		HT_PROBE p = name + verif_g4; \
 		struct hh_state s_; \
 		s_.b[0] = (hh_u32)verif_g0; s_.b[1] = (hh_u32)verif_g1; s_.b[2] = (hh_u32)verif_g2; s_.b[3] = (hh_u32)verif_g3; \
 		s_ = hh_step(s_, version, (const unsigned char *)p, len); \
@@ -324,19 +346,26 @@ static struct hh_state g_old;
  * Contracts of the helpers.  They are general (no reference to harness objects), so the same text is ENFORCED in the
  * helper units and REPLACES the helper in the whole-function units.
  */
-/* kernel TEA_transform: only buf[0] and buf[1] change (frame: buf[2], buf[3] are not assignable) */
+/* kernel TEA_transform: only buf[0] and buf[1] change (frame: buf[2], buf[3] are not assignable).
+ * One clause per output word, each a plain equality with a single-level specification function. */
 static void TEA_transform(__u32 buf[4], __u32 const in[])
-	ENSURES(hh_tea_holds(OLD(buf[0]), OLD(buf[1]), in, buf[0], buf[1]))
+	ENSURES(buf[0] == HH_TEA_WORD(OLD(buf[0]), OLD(buf[1]), in, 0))
+	ENSURES(buf[1] == HH_TEA_WORD(OLD(buf[0]), OLD(buf[1]), in, 1))
 	ASSIGNS(buf[0], buf[1]);
 
 static void halfMD4Transform(__u32 buf[4], __u32 const in[])
-	ENSURES(hh_md4_holds(OLD(buf[0]), OLD(buf[1]), OLD(buf[2]), OLD(buf[3]), in, buf))
+	ENSURES(buf[0] == HH_MD4_WORD(OLD(buf[0]), OLD(buf[1]), OLD(buf[2]), OLD(buf[3]), in, 0))
+	ENSURES(buf[1] == HH_MD4_WORD(OLD(buf[0]), OLD(buf[1]), OLD(buf[2]), OLD(buf[3]), in, 1))
+	ENSURES(buf[2] == HH_MD4_WORD(OLD(buf[0]), OLD(buf[1]), OLD(buf[2]), OLD(buf[3]), in, 2))
+	ENSURES(buf[3] == HH_MD4_WORD(OLD(buf[0]), OLD(buf[1]), OLD(buf[2]), OLD(buf[3]), in, 3))
 	ASSIGNS(buf[0], buf[1], buf[2], buf[3]);
 
+#define S2HB_WORD(w) (buf[w] == HH_WORD(msg, len, num, w, unsigned_flag))
 static void str2hashbuf(const char *msg, int len, __u32 *buf, int num, int unsigned_flag)
 	REQUIRES((num == 4 || num == 8) && len >= 0 && (unsigned_flag == 0 || unsigned_flag == 1))
-	ENSURES(hh_words_hold((const unsigned char *)msg, len, num, unsigned_flag, buf))
-	ASSIGNS(__CPROVER_object_upto(buf, (__CPROVER_size_t)num * 4));
+	ENSURES(S2HB_WORD(0)) ENSURES(S2HB_WORD(1)) ENSURES(S2HB_WORD(2)) ENSURES(S2HB_WORD(3))
+	ENSURES(num != 8 || S2HB_WORD(4)) ENSURES(num != 8 || S2HB_WORD(5)) ENSURES(num != 8 || S2HB_WORD(6)) ENSURES(num != 8 || S2HB_WORD(7))
+	ASSIGNS(buf[0], buf[1], buf[2], buf[3]; num == 8: buf[4], buf[5], buf[6], buf[7]);
 
 #ifndef HT_LOOPS
 static ext2_dirhash_t dx_hack_hash(const char *name, int len, int unsigned_flag)
@@ -360,7 +389,7 @@ void h_tea(void)
 	LOAD_IN();
 	load_buf();
 	TEA_transform(T_BUF, T_IN);
-	CHECK(hh_tea_holds(g_old.b[0], g_old.b[1], T_IN, T_BUF[0], T_BUF[1]) && T_BUF[2] == g_old.b[2] && T_BUF[3] == g_old.b[3], "TEA_transform equals the kernel's TEA_transform; buf[2], buf[3] untouched");
+	CHECK(T_BUF[0] == hh_tea_word(g_old.b[0], g_old.b[1], T_IN, 0) && T_BUF[1] == hh_tea_word(g_old.b[0], g_old.b[1], T_IN, 1) && T_BUF[2] == g_old.b[2] && T_BUF[3] == g_old.b[3], "TEA_transform equals the kernel's TEA_transform; buf[2], buf[3] untouched");
 	REACH("end");
 }
 
@@ -369,7 +398,10 @@ void h_md4(void)
 	LOAD_IN();
 	load_buf();
 	halfMD4Transform(T_BUF, T_IN);
-	CHECK(hh_md4_holds(g_old.b[0], g_old.b[1], g_old.b[2], g_old.b[3], T_IN, T_BUF), "halfMD4Transform equals the kernel's half_md4_transform");
+	{
+		struct hh_state n = hh_md4(g_old, T_IN);
+		CHECK(T_BUF[0] == n.b[0] && T_BUF[1] == n.b[1] && T_BUF[2] == n.b[2] && T_BUF[3] == n.b[3], "halfMD4Transform equals the kernel's half_md4_transform");
+	}
 	REACH("end");
 }
 
@@ -397,7 +429,8 @@ void h_s2hb(void)
 	load_buf();
 	ASSUME(IN.len >= 0 && (IN.uns == 0 || IN.uns == 1));
 	str2hashbuf((const char *)IN.name, IN.len, T_IN, HT_NUM, IN.uns);
-	CHECK(hh_words_hold(IN.name, IN.len, HT_NUM, IN.uns, T_IN), "str2hashbuf equals the kernel's str2hashbuf_signed / _unsigned, every output word");
+	for (int w = 0; w < HT_NUM; w++)
+		CHECK(T_IN[w] == hh_word(IN.name, IN.len, HT_NUM, w, IN.uns), "str2hashbuf equals the kernel's str2hashbuf_signed / _unsigned, every output word");
 	CHECK(HT_NUM == 8 || (T_IN[4] == IN.in[4] && T_IN[7] == IN.in[7]), "nothing behind the num output words is written");
 	if (IN.len > HT_NUM * 4) REACH("long name: chunk full");
 	if (IN.len < HT_NUM * 4 && (IN.len & 3) == 1 && IN.name[0] >= 128 && !IN.uns) REACH("partial word, signed high byte");
@@ -462,6 +495,8 @@ void h_dirhash(void)
  * The harness initialises the fold with the kernel's seed rule (hh_seed) and the kernel's legacy constants; the loop invariant's
  * base case then proves that the code starts from the same state.
  */
+/* the name lives in an array object of its own (not inside struct IN): reads at the symbolic chunk offset stay array reads */
+static unsigned char NAME[256];
 static void dirhash_loop_common(int version)
 {
 	ext2_dirhash_t h = IN.junk_hash, mh = IN.junk_minor;
@@ -479,7 +514,7 @@ static void dirhash_loop_common(int version)
 	}
 	verif_g4 = 0;
 	verif_g5 = IN.len;
-	r = ext2fs_dirhash(version, (const char *)IN.name, IN.len, IN.has_seed ? IN.seed : NULL, &h, IN.want_minor ? &mh : NULL);
+	r = ext2fs_dirhash(version, (const char *)NAME, IN.len, IN.has_seed ? IN.seed : NULL, &h, IN.want_minor ? &mh : NULL);
 	CHECK(r == 0, "supported version");
 	if (legacy) {
 		CHECK(verif_g4 == (unsigned)IN.len, "the fold has consumed exactly the len bytes of the name");
@@ -500,6 +535,8 @@ static void dirhash_loop_common(int version)
 void h_dirhash_loop(void)
 {
 	LOAD_IN();
+	for (int i = 0; i < 256; i++)
+		NAME[i] = IN.name[i];
 #if HT_ALG == 0
 	ASSUME(IN.version == HH_LEGACY || IN.version == HH_LEGACY_UNSIGNED);
 	if (IN.version == HH_LEGACY) dirhash_loop_common(HH_LEGACY); else dirhash_loop_common(HH_LEGACY_UNSIGNED);
